@@ -95,6 +95,7 @@ def particle_swarm(
     velocities: list[list[float]] = []
 
     if initial_positions is not None:
+        n_particles = max(n_particles, len(initial_positions))  # every start point the caller supplies takes part
         for pos in initial_positions:
             if len(positions) >= n_particles:
                 break
